@@ -2,6 +2,7 @@ mod openapi;
 mod serde;
 
 use syn::Attribute;
+pub(super) use self::serde::Case;
 
 #[derive(Default)]
 pub(super) struct ContainerAttributes {
